@@ -80,13 +80,14 @@ where
 			match event.event_type() {
 				YAML_DOCUMENT_START_EVENT => {
 					// An implicit document starts at its first token, which may
-					// be indented. The indentation is part of the document: a
-					// second pass over a chunk without it would see the first
-					// line at a different column than the lines that follow.
+					// be indented (or follow a byte order mark). What precedes
+					// it on its line is part of the document: a second pass
+					// over a chunk without it would see the first line at a
+					// different column than the lines that follow.
 					let offset = self
 						.parser
 						.reader_mut()
-						.indentation_start(event.start_offset());
+						.line_start(event.start_offset());
 					#[cfg(xt_verif)]
 					crate::verif::emit("chunk_doc_start", offset, self.parser.reader_mut().captured_start_offset, self.parser.reader_mut().captured.len() as u64);
 					self.parser.reader_mut().trim_to_offset(offset);
@@ -175,17 +176,17 @@ where
 		}
 	}
 
-	/// Returns the offset of the first byte in the run of spaces and tabs that
-	/// ends at the specified reader offset, looking no further back than the
-	/// start of the capture buffer.
-	fn indentation_start(&self, offset: u64) -> u64 {
+	/// Returns the offset of the start of the line that contains the specified
+	/// reader offset, looking no further back than the start of the capture
+	/// buffer (the end of the previous document).
+	fn line_start(&self, offset: u64) -> u64 {
 		let len = usize::try_from(offset - self.captured_start_offset).unwrap();
-		let blanks = self.captured[..len]
+		let before = self.captured[..len]
 			.iter()
 			.rev()
-			.take_while(|b| matches!(b, b' ' | b'\t'))
+			.take_while(|b| !matches!(b, b'\n' | b'\r'))
 			.count();
-		offset - blanks as u64
+		offset - before as u64
 	}
 
 	/// Trims from the start of the capture buffer so the next chunk will begin
